@@ -74,7 +74,9 @@ EndVerdict(r) ==
       unsynced == IF cfg.fsync /\ ok THEN wrote \ synced ELSE {}
       notCloned == IF cfg.reflink = "always" /\ ok THEN (wrote \ cloneOk) \cup (copied \cap wrote) ELSE {}
       fdGrowth == cfg.peakBase >= 0 /\ peak > cfg.peakBase + cfg.fdSlack
-      all == bad \cup Mark("C18", unsynced # {}) \cup Mark("C15", notCloned # {}) \cup Mark("C20", fdGrowth)
+      \* C20 also demands success under the descriptor limit: r.mustSucceed marks such runs, r.missing counts absent/different files
+      failedUnderLimit == r.mustSucceed /\ (r.exit # 0 \/ r.missing > 0)
+      all == bad \cup Mark("C18", unsynced # {}) \cup Mark("C15", notCloned # {}) \cup Mark("C20", fdGrowth \/ failedUnderLimit)
   IN PrintT(<<"VERDICT", ToJson([run |-> cfg.run, viol |-> SetToSeq(all), peak |-> peak, written |-> Cardinality(wrote),
                                  unsynced |-> SetToSeq(unsynced), exit |-> r.exit])>>)
 
